@@ -5,4 +5,5 @@
 //!  * `sched`   : seeded yield points used to perturb thread interleavings,
 //!  * `facade`  : thin public wrappers over crate-private layers (pager, B+tree, WAL, tuples)
 //!                that contain no logic of their own beyond marshalling.
+pub mod facade;
 pub mod io_tap;
